@@ -29,6 +29,7 @@ type SVal struct {
 	T    Term
 	Ty   SType
 	Len  Term   // KSlice
+	Cap  Term   // KSlice: capacity ("" when unknown: a fresh constant >= Len is made on demand)
 	Flat []Term // KStruct: flattened leaves (Ty.Elem is the struct type)
 }
 
@@ -69,6 +70,7 @@ type Env struct {
 	g        *Gen
 	cur, old *State
 	vars     map[string]SVal
+	entry    map[string]SVal // the function's parameters as they were at entry: what their names mean inside old(...)
 	noDefine bool
 	depth    int
 }
@@ -152,6 +154,16 @@ func (e *Env) integer(x Expr) Term {
 	return v.T
 }
 
+// capOf: the capacity of a slice value; unknown capacities are fresh constants, at least the length.
+func (e *Env) capOf(v SVal) Term {
+	if v.Cap.S != "" {
+		return v.Cap
+	}
+	c := e.g.fresh("cap", SInt)
+	e.g.assume(And(Ge(c, v.Len), Lt(c, BigLit(pow2big(62)))))
+	return c
+}
+
 func iv(t Term) SVal { return SVal{T: t, Ty: SType{K: KInt}} }
 func bv(t Term) SVal { return SVal{T: t, Ty: SType{K: KBool}} }
 func cv(t Term) SVal { return SVal{T: t, Ty: SType{K: KCond}} }
@@ -183,6 +195,17 @@ func (e *Env) eval(x Expr) SVal {
 		}
 		n := *e
 		n.cur = e.old
+		if len(e.entry) > 0 {
+			// parameters are mutable: inside old(...) their names denote the entry values, also at a loop head where
+			// the plain name is the current value
+			n.vars = map[string]SVal{}
+			for k, v := range e.vars {
+				n.vars[k] = v
+			}
+			for k, v := range e.entry {
+				n.vars[k] = v
+			}
+		}
 		return n.eval(x.X)
 	case *ELet:
 		v := e.eval(x.V)
@@ -477,6 +500,35 @@ func (e *Env) call(x *ECall) SVal {
 			e.fail("len of non-slice")
 		}
 		return iv(v.Len)
+	case "cap":
+		need(1)
+		v := e.eval(args[0])
+		if v.Ty.K != KSlice {
+			e.fail("cap of non-slice")
+		}
+		return iv(e.capOf(v))
+	case "base":
+		// the address of the first cell of a slice's backing array as seen through the slice
+		need(1)
+		v := e.eval(args[0])
+		if v.Ty.K != KSlice {
+			e.fail("base of non-slice")
+		}
+		return iv(v.T)
+	case "extends":
+		// extends(r, b): r is what append-like code returns for b - the same backing array (same first cell, same
+		// capacity, at least b's length and within the capacity) or an array allocated after the pre-state (old) of this clause
+		need(2)
+		r, b := e.eval(args[0]), e.eval(args[1])
+		if r.Ty.K != KSlice || b.Ty.K != KSlice {
+			e.fail("extends of non-slices")
+		}
+		base := e.old
+		if base == nil {
+			base = e.cur
+		}
+		same := And(Eq(r.T, b.T), Eq(e.capOf(r), e.capOf(b)), Le(b.Len, r.Len), Le(r.Len, e.capOf(b)))
+		return bv(Or(same, Ge(r.T, base.cnt)))
 	case "has":
 		need(2)
 		return bv(Ne(app(SBV, "bvand", e.cond(args[0]), e.cond(args[1])), BVLit(0)))
@@ -504,9 +556,14 @@ func (e *Env) call(x *ECall) SVal {
 		p := e.integer(args[0])
 		return bv(And(Lt(IntLit(0), p), Lt(p, IntLit(GEND))))
 	case "isfresh":
+		// a pointer allocated after the pre-state (old) of this clause; for a slice: no cells at all, or a backing
+		// array allocated after it
 		need(1)
 		if e.old == nil {
 			e.fail("isfresh needs an old state")
+		}
+		if v := e.eval(args[0]); v.Ty.K == KSlice {
+			return bv(Or(Eq(e.capOf(v), IntLit(0)), Ge(v.T, e.old.cnt)))
 		}
 		return bv(Ge(e.integer(args[0]), e.old.cnt))
 	case "allocated":
@@ -520,6 +577,9 @@ func (e *Env) call(x *ECall) SVal {
 	case "val":
 		need(1)
 		v := e.eval(args[0])
+		if v.Ty.K == KStruct && v.Ty.Elem != nil && isBigInt(v.Ty.Elem) && !e.g.L.layer1 && len(v.Flat) == 1 {
+			return iv(v.Flat[0]) // a BigInt held by value (a by-value Decimal receiver): its one leaf is the abstract value
+		}
 		if v.Ty.K != KRef || v.Ty.Elem == nil {
 			e.fail("val() needs a *BigInt")
 		}
@@ -611,7 +671,10 @@ func (e *Env) call(x *ECall) SVal {
 		if want.sort() != v.T.Sort {
 			e.fail("argument %s of %s: sort mismatch (%s)", p.Name, x.Fn, exprString(args[i]))
 		}
-		if want.K == KRef {
+		if want.K == KRef && v.Ty.K == KStruct && want.Elem != nil && v.Ty.Elem != nil && types.Identical(want.Elem, v.Ty.Elem) {
+			// a struct held by value (a by-value receiver) where the macro expects a pointer to that struct: field
+			// selection and val() work on the value itself
+		} else if want.K == KRef {
 			v.Ty = want
 		} else if want.K == KSlice && v.Ty.K == KSlice {
 		} else if want.K != v.Ty.K && !(want.K == KInt && v.Ty.K == KRef) {
